@@ -153,6 +153,15 @@ def run(ctx):
             cname = d.get("name") or d.get("type") or ""
             ops = [h for h in prog.fns.values() if h.has_cfg and h.op == "()" and h.file == f.file and (h.cls or "").split("::")[-1] == short(cname).split("::")[-1] and len(h.params) == 1]
             body = ops[0] if len(ops) == 1 else None
+        else:
+            # a named function of the library handed over by address (`&dl::close_handle`, `close_handle`)
+            r = d
+            if isinstance(r, dict) and r.get("k") == "un" and r.get("op") == "&":
+                r = ir.unwrap(r["e"])
+            if isinstance(r, dict) and r.get("k") == "ref" and str(r.get("decl", "")).startswith("fn:"):
+                g = prog.fn(r["decl"][3:])
+                if g is not None and g.has_cfg and g.file.startswith("/repo/") and len(g.params) == 1:
+                    body = g
         if body is None:
             ctx.bad("R19.2", f, "deleter-null-safe:" + tag,
                     "the deleter is %s, not a function that tests its argument: shared_ptr runs the deleter also for a null handle, so a failed dlopen ends in dlclose(NULL) while the exception unwinds" % fmt(d), f)
@@ -161,6 +170,11 @@ def run(ctx):
             ctx.broken("R19.2", f, "deleter-body:" + tag, "deleter body not found", f)
             continue
         deleters.add(body.id)
+        if body.kind not in ("lambda",) and body.op != "()":
+            # a named deleter closes the library whenever it is CALLED: nobody but the owning handle may do that
+            direct = sorted(c for c in callgraph(ctx).callers(body.id) if (prog.fn(c) is not None and prog.fn(c).file.startswith("/repo/")))
+            ctx.check(not direct, "R19.3", body, "named-deleter-only-runs-as-deleter:" + short(body.qual), "%s, the handle's deleter, is also called directly by %s: the library can be closed while symbols or copies are alive"
+                      % (short(body.qual), [short(c.split("(")[0]) for c in direct]), body)
         pn = body.params[0]["name"] if body.params else "?"
         closes = [(b, i, e, n) for b, i, e in body.roots() for n in dl_calls(e) if n.get("name") == "dlclose"]
         ctx.check(len(closes) == 1 and fmt(closes[0][3]["args"][0]) == pn, "R19.2", f, "deleter-closes-its-argument:" + tag, "the deleter calls dlclose %d time(s) / not on its own argument" % len(closes), body)
@@ -303,6 +317,9 @@ def run(ctx):
     ctx.rule("R19.7", "nothing in the dl / env wrappers reads a local or parameter after handing it to std::move (a moved-from shared_ptr is null: dlsym(nullptr, name) searches the global scope)")
     from .common import rule_no_use_after_move
     rule_no_use_after_move(ctx, "R19.7", lambda g: "/nitro/dl/" in g.file or "/env/" in g.file, "a moved-from handle is null", minimum=5)
+    ctx.rule("R19.8", "no catch handler in the dl / env wrappers lets a failure vanish or turns the documented error into another class: a library or symbol that cannot be loaded, a variable that is not set, is reported to the caller")
+    from .common import rule_handlers
+    rule_handlers(ctx, "R19.8", lambda g: "/nitro/dl/" in g.file or "/env/" in g.file, ("nitro::dl::exception", "nitro::except::exception"), "the failure has to reach the caller as the documented exception", minimum=5)
     loads = [f for f in prog.fns.values() if f.has_cfg and f.name == "load" and f.cls == "nitro::dl::dl"]
     ctx.need("R19.4", "dl::load bodies", len(loads), 1)
     for f in loads:
